@@ -6,6 +6,7 @@
 //   tostr <dump>  ->  <hex of Json::toString>     (tostr only: also u<dec> uint, U<dec> uint64, <V,...> Array<Variant>)
 //   tostr D<hex>  ->  dbl | <hex>                  (double made from the number text: "dbl" when the output is -?digits.6digits)
 //   rt <dump>     ->  ok <dump of parse(toString(v))> <v' == v> | err <line> <col>
+//   parseinto <dump> <hex> -> ok <dump> | err <line> <col>    (Parser::parse into a Variant that already holds <dump>)
 //
 // dump grammar (one token, no blanks):
 //   V ::= n | t | f | d | i<dec> | l<dec> | s<hex> | [V,V,...] | {<hex>:V,<hex>:V,...}      (<hex> = "-" when empty)
@@ -343,6 +344,28 @@ int main()
       char* text = hxCStr(l.tok[1], len); // exactly len + 1 bytes on the heap: ASan sees any read behind the NUL
       doParse(text, 0);
       free(text);
+    }
+    else if(hxIs(l, "parseinto", 2))
+    {
+      // parse into a Variant that already holds a value: lists / maps are appended to, anything else is replaced
+      Variant v;
+      extKinds = false;
+      if(!readDump(l.tok[1], v)) { obStr("bad-op"); obFlush(); continue; }
+      size_t len;
+      char* text = hxCStr(l.tok[2], len);
+      if(!text) { obStr("bad-op"); obFlush(); continue; }
+      {
+        Json::Parser parser;
+        if(parser.parse(text, v)) { obStr("ok "); dump(v); }
+        else
+        {
+          char pos[64];
+          snprintf(pos, sizeof(pos), "err %d %d", parser.getErrorLine(), parser.getErrorColumn());
+          obStr(pos);
+        }
+      }
+      free(text);
+      obFlush();
     }
     else if(hxIs(l, "strip", 1))
     {
